@@ -753,5 +753,10 @@ func findIndexEntry(entries []*IndexEntry, offset int64) *IndexEntry {
 			hi = mid - 1
 		}
 	}
+	if hi >= 0 {
+		// The search ended between two entries: hi is the last entry at or
+		// before the offset.
+		return entries[hi]
+	}
 	return entries[0]
 }
